@@ -25,7 +25,7 @@ LEVEL_TEXT = ('Deductive part: for every table of the listed shapes and '
               'verifier\'s reach: it is covered by a BOUNDED comparison '
               '(169k expressions over 6 tables) and labelled as such.')
 LEVEL_NOTE = ('ply.yacc conflict resolution by the precedence rows is '
-              'assumed; the precedence rows of _generate_operator_funcs are '
+              'assumed; the precedence rows of _generate_operator_funcs are proved for 4 table shapes and '
               'covered only by the bounded comparison (tables: default, '
               'legacy, prefix+right-assoc dual role, same-group and '
               'new-group insertions, customised-after-create, tightest / '
@@ -45,6 +45,11 @@ def units(ctx):
            for c in lexer.contracts() if 'p_arg' in c.short
            or 'p_args' in c.short or 'p_unary' in c.short
            or 'p_binary' in c.short]
+    # the ply precedence rows as a function of the operator table (levels
+    # loosest first; inside a level the left/prefix row, then the
+    # right/suffix row)
+    us += [contract_unit(c, world_setup=lexer.setup_precedence)
+           for c in lexer.precedence_contracts()]
     us.append(bounded_unit(
         'bounded:c02-tables', 'c02_tables.py',
         'BOUNDED: real LALR parser vs table-driven reference parser on 6 '
